@@ -414,7 +414,7 @@ class Evaluator:
                         and seq[1]["end"][1] - seq[1]["start"][1] <= 4096:
                     seq = ("array",) + tuple(("int", i_) for i_ in range(seq[1]["start"][1], seq[1]["end"][1]))
                 if seq[0] != "array":
-                    raise Unrecognised(f"for loop over {str(seq)[:40]}")
+                    seq = self._drain(e, seq)
                 for el in seq[1:]:
                     env2 = Env(env) if isinstance(env, Env) else Env(_as_env(env))
                     if not self.bind(pat, el, env2):
@@ -1016,6 +1016,45 @@ class Evaluator:
                         self._mutref[repr(v)] = pl
                 return v
         raise Unrecognised(f"call to {cal}")
+
+
+def _next_call(e):
+    """The `Iterator::next(&mut iter)` call of a for-loop desugaring."""
+    for n in hir.walk(hir.simp(e["arms"][0]["body"])):
+        if n.get("k") == "match" and hir.is_call(hir.simp(n["scrut"]), "Iterator::next"):
+            return hir.simp(n["scrut"])
+    return None
+
+
+def _drain(self, e, it):
+    """The items of a for loop over a value whose `Iterator::next` is a function of an inlinable crate: `next` is evaluated on
+    the iterator value until it yields None (bounded)."""
+    nx = _next_call(e)
+    cal = hir.callee(nx) if nx else ""
+    if nx and cal == "core::iter::traits::iterator::Iterator::next":
+        # the desugaring names the trait method; the impl is the one of the iterator's type
+        ty = str(hir.simp(nx["args"][0]).get("ty", "")).replace("&mut ", "", 1)
+        if not ty and hir.is_call(hir.simp(e["scrut"]), "IntoIterator::into_iter"):
+            ty = str(hir.simp(hir.simp(e["scrut"])["args"][0]).get("ty", ""))       # (a loop the normaliser built)
+        cal = f"<{ty} as core::iter::traits::iterator::Iterator>::next"
+    crate = cal.lstrip("<&").split("::")[0]
+    if not (crate in self.inline_crates and cal in self.facts.crate(crate)["_bodies"]):
+        raise Unrecognised(f"for loop over {str(it)[:40]}")
+    out = []
+    for _ in range(LOOP_BOUND):
+        fin = []
+        r = self.call_fn(crate, cal, [it], final=fin)
+        if fin and fin[0] is not None:
+            it = fin[0]
+        if r[0] == "none":
+            return ("array",) + tuple(out)
+        if r[0] != "some":
+            raise Unrecognised(f"iterator yields {str(r)[:40]}")
+        out.append(r[1])
+    raise Unrecognised("iterator does not finish within the bound")
+
+
+Evaluator._drain = _drain
 
 
 def _as_env(d):
